@@ -11,6 +11,17 @@ type proc struct {
 	done bool
 }
 
+// current is the yield function of the proc that is running (exactly one runs at a time); shared objects
+// that do not know which call they serve use Yield.
+var current func()
+
+// Yield lets another proc run, on behalf of whichever proc is running now. Outside Run it does nothing.
+func Yield() {
+	if y := current; y != nil {
+		y()
+	}
+}
+
 type event struct {
 	id   int
 	done bool
@@ -21,7 +32,9 @@ type event struct {
 // returns an index into enabled. It returns the choices made and the number of enabled procs at each.
 func Run(procs []func(yield func()), choose func(point int, enabled []int) int) (choices, widths []int, panicked any) {
 	ps := make([]*proc, len(procs))
+	yields := make([]func(), len(procs))
 	ev := make(chan event)
+	defer func() { current = nil }()
 	for i := range procs {
 		ps[i] = &proc{wake: make(chan struct{})}
 		i := i
@@ -30,10 +43,14 @@ func Run(procs []func(yield func()), choose func(point int, enabled []int) int) 
 			defer func() {
 				ev <- event{id: i, done: true, pan: recover()}
 			}()
-			procs[i](func() {
+			y := func() {
 				ev <- event{id: i}
 				<-ps[i].wake
-			})
+				current = yields[i]
+			}
+			yields[i] = y
+			current = y
+			procs[i](y)
 		}()
 	}
 	cur := -1
